@@ -133,7 +133,7 @@ def region_eval(expr, x, skel):
     env.update({k: v for k, v in x.items() if k.isidentifier()})
     r = eval(expr, {"__builtins__": {"len": len, "any": any, "all": all, "range": range, "min": min, "max": max,
                                       "True": True, "False": False, "None": None, "sum": sum, "isinstance": isinstance,
-                                      "str": str, "int": int, "list": list}}, env)
+                                      "str": str, "int": int, "list": list, "enumerate": enumerate, "zip": zip, "tuple": tuple}}, env)
     return conv(r)
 
 
